@@ -1,11 +1,31 @@
 """C03 — ordering is lexicographic over the non-ignored fields in rank order; PartialOrd agrees with Ord."""
 import itertools
+import re
 
 from .. import shapes as S
 from ..core import Case
 from .common import place, CTX
 
 MIN = -(1 << 63)
+
+
+def split_top(text):
+    """split a parameter list at top-level commas"""
+    out, depth, cur = [], 0, ''
+    for ch in text:
+        if ch in '([{':
+            depth += 1
+        if ch in ')]}':
+            depth -= 1
+        if ch == ',' and depth == 0:
+            out.append(cur)
+            cur = ''
+        else:
+            cur += ch
+    if cur.strip():
+        out.append(cur)
+    return out
+
 # config -> (type-level trait list, carrier of the field attributes, has Ord, hand-written partners)
 CFGS = {
     'PO': ('PartialOrd', 'PartialOrd', False),
@@ -200,6 +220,23 @@ def generate(tier):
                                     cases.append(build(shape, focus, ch + 'c', (rk, 0), cfg,
                                                        opts={'sp': sp, 'order': order, 'comma': comma},
                                                        tag='|sp%d%d%d' % (sp, order, comma)))
+    # explicit `ignore = false` / `ignore(false)` at every position of the parameter list
+    for style in 'tn':
+        for shape, focus in placements(S.Fields(style, 2), 'quick')[:2]:
+            for ch in 'cml':
+                for rk in (None, 1, -1):
+                    if ch == 'c' and rk is None:
+                        continue
+                    for cfg in CFGS:
+                        for pos in range(3):
+                            for sp_ in ('ignore = false', 'ignore(false)'):
+                                c = build(shape, focus, ch + 'c', (rk, 0), cfg, opts={'sp': pos, 'order': 0, 'comma': False}, tag='|notign%d%s' % (pos, sp_[6]))
+                                # splice the explicit parameter into the focus field's attribute
+                                m = re.search(r'#\[educe\((PartialOrd|Ord)\(([^\n]*)\)\)\]', c.body)
+                                parts = [x.strip() for x in split_top(m.group(2))]
+                                parts.insert(min(pos, len(parts)), sp_)
+                                c.body = c.body[:m.start()] + '#[educe(%s(%s))]' % (m.group(1), ', '.join(parts)) + c.body[m.end():]
+                                cases.append(c)
     # attribute context
     for style in 'tn':
         for shape, focus in placements(S.Fields(style, 2), 'quick'):
